@@ -390,7 +390,7 @@ func c04Reuse(r *fw.Rec, f c04Field) {
 }
 
 func c04(c *fw.Ctx) {
-	c.Rule("all six fields: every product a*b (exhaustive, up to 4096^2), every inverse, log and exp compared with shift-and-xor multiplication modulo the primitive polynomial; RS encode compared with polynomial long division and direct syndrome evaluation; RS decode must restore the exact word: short codes (n <= 20) with every single and double error position, long codes with random (k, r) up to n = |F|-1 and 0, 1, t-1, t errors at random, extreme and burst positions; floor(r/2) errors with magnitudes solved so that two chosen syndromes (the highest, the lowest, or any two) vanish, and all-zero data words over a stale parity area; histories of 24 words with varying parity counts on ONE encoder and ONE decoder instance (large then small r, re-encoding in place); 14 operations (Inverse, Exp, Log, Multiply, GetZero, GetOne, BuildMonomial, polynomial evaluation and product, Encode, Decode, the same on a freshly constructed field) each as the FIRST use of each field in a fresh process; distinct = distinct field elements + distinct (field, k, r, data)")
+	c.Rule("all six fields: every product a*b (exhaustive, up to 4096^2), every inverse, log and exp compared with shift-and-xor multiplication modulo the primitive polynomial; RS encode compared with polynomial long division and direct syndrome evaluation; RS decode must restore the exact word: short codes (n <= 20) with every single and double error position, long codes with random (k, r) up to n = |F|-1 and 0, 1, t-1, t errors at random, extreme and burst positions; floor(r/2) errors with magnitudes solved so that two chosen syndromes (the highest, the lowest, or any two) vanish, and all-zero data words over a stale parity area; blocks of the 10- and 12-bit fields with 514..1013 check symbols and up to floor(r/2) > 256 errors; histories of 24 words with varying parity counts on ONE encoder and ONE decoder instance (large then small r, re-encoding in place); 14 operations (Inverse, Exp, Log, Multiply, GetZero, GetOne, BuildMonomial, polynomial evaluation and product, Encode, Decode, the same on a freshly constructed field) each as the FIRST use of each field in a fresh process; distinct = distinct field elements + distinct (field, k, r, data)")
 	c.Assume("more than floor(r/2) errors are outside the statement and never generated")
 	fields := c04Fields()
 	for _, f := range fields {
@@ -449,6 +449,16 @@ func c04(c *fw.Ctx) {
 			c.Run(fmt.Sprintf("reuse/%s/%d", f.ref.Name, i), func(r *fw.Rec) { c04Reuse(r, f) })
 		}
 	}
+	for _, f := range fields {
+		f := f
+		if f.ref.Size < 1024 {
+			continue
+		}
+		for i := 0; i < c.Pick(6, 120); i++ {
+			c.Run(fmt.Sprintf("wideparity/%s/%d", f.ref.Name, i), func(r *fw.Rec) { c04WideParity(r, f) })
+		}
+	}
+	c.Floor("rs_decoded_with_more_than_256_errors", 20)
 	nzs := c.Pick(120, 3000)
 	for _, f := range fields {
 		f := f
@@ -582,6 +592,38 @@ func c04Cold(r *fw.Rec, fi int) {
 		r.Tally("cold_start_first_operations")
 	}
 	r.Nontrivial("cold/" + f.ref.Name)
+}
+
+// c04WideParity: blocks with more than 512 check symbols (only the 10- and 12-bit fields are
+// large enough) and floor(r/2) > 256 errors: every buffer sized for "a byte's worth" of errors
+// is too small here.
+func c04WideParity(r *fw.Rec, f c04Field) {
+	rng := r.Rng
+	size := f.ref.Size
+	ec := 514 + rng.Intn(minInt(500, size-1-514-1))
+	k := 1 + rng.Intn(minInt(200, size-1-ec))
+	enc := reedsolomon.NewReedSolomonEncoder(f.lib)
+	dec := reedsolomon.NewReedSolomonDecoder(f.lib)
+	data := toInts(k, rng, size, rng.Intn(4))
+	word, ok := c04Encode(r, f, enc, data, ec)
+	if !ok {
+		return
+	}
+	n := k + ec
+	for _, e := range []int{ec / 2, 257 + rng.Intn(ec/2-256), 256, 1} {
+		pos := rng.Perm(n)[:e]
+		mags := make([]int, e)
+		for i := range mags {
+			mags[i] = 1 + rng.Intn(size-1)
+		}
+		if !c04Decode(r, f, dec, word, ec, pos, mags) {
+			return
+		}
+		if e > 256 {
+			r.Tally("rs_decoded_with_more_than_256_errors")
+		}
+	}
+	r.NontrivialH(hashInts(word[:minInt(len(word), 64)], []int{k, ec}))
 }
 
 // ---- structured error patterns
